@@ -42,6 +42,19 @@ def finish(prop, tier, seed, results, wall, known, no_evidence=False):
             k = match_known(prop, v, known)
             if k:
                 known_hits.append((k, v))
+            elif v.get("contract_only"):
+                # the proof hints of this (changed) function had to be dropped: a failed proof is then not a
+                # decision. It becomes a violation only if a concrete failing input is confirmed on the real code.
+                import cex
+                try:
+                    found = cex.search(prop, v["region"], seed, tier)
+                except Exception as e:
+                    found = None
+                if found and found.get("input") is not None:
+                    violations.append(v)
+                else:
+                    v["why"] = "function changed beyond the reach of its proof hints; contract-only proof failed and no failing input was found"
+                    undecided.append(v)
             else:
                 violations.append(v)
         for u in r.get("undecided", []):
